@@ -170,10 +170,22 @@ package types
 
 // Parsers whose bodies depend on time / net/netip: used as deterministic
 // functions of the argument by the evaluator contracts.
+// An accepted datetime has one of the fixed layouts of the Cedar datetime syntax - date, date+time with
+// Z, with a `+hhmm`/`-hhmm` offset, each optionally with `.mmm` - which shows in its length: 10, 20, 24
+// or 28 characters, six more for an expanded (signed, nine digit) year. (The calendar arithmetic of
+// package time is opaque; the value itself is not under contract.)
+//@ spec func dtLen(s string) int = len(s) - (((len(s) > 0) && (s[0] == '+' || s[0] == '-')) ? 6 : 0)
 //@ func ParseDatetime
+//@   props C12 C10
 //@   pure
-//@   trusted
+//@   safety
 //@   results d, err
+//@   ensures layout: err == nil ==> (dtLen(old(s)) == 10 || dtLen(old(s)) == 20 || dtLen(old(s)) == 24 || dtLen(old(s)) == 28)
+//@ func expectChar
+//@   props C12 C10
+//@   safety
+//@   results rest, err
+//@   ensures err == nil ==> (len(s) > 0 && s[0] == c && len(rest) == len(s) - 1)
 //@ func ParseIPAddr
 //@   props C12
 //@   pure
@@ -406,6 +418,7 @@ package types
 //@   results v, rest, err
 //@   ensures digits: err == nil ==> (chars <= len(s) && (forall k int :: (0 <= k && k < chars) ==> (48 <= s[k] && s[k] <= 57)))
 //@   ensures bound: err == nil ==> (0 <= v && v <= maxValue)
+//@   ensures rest: err == nil ==> len(rest) == len(s) - chars
 // floating point is outside the logic: not swept
 //@ func (Decimal) Float
 //@   nosafety
